@@ -263,7 +263,12 @@ def build_case(rng, root):
             if spelled != name + ext:
                 # (other spellings of a name inside the cart's directory)
                 feats.add('name_not_in_normal_form')
-            directive = lead + b'#include' + gap + spelled.encode() + ((':%d' % sel).encode() if sel is not None else b'') + trail + b'\n'
+            selfmt = ':%d'
+            if sel is not None and rng.random() < 0.2:
+                # the selector is a decimal number: `:01`, `:003`, `:00` are tabs 1, 3 and 0
+                selfmt = rng.choice((':%02d', ':%03d', ':0%d'))
+                feats.add('tab_selector_with_leading_zeros')
+            directive = lead + b'#include' + gap + spelled.encode() + ((selfmt % sel).encode() if sel is not None else b'') + trail + b'\n'
             if lead or trail or gap != b' ':
                 feats.add('directive_whitespace_variant')
             in_comment = rng.random() < 0.12 or fragment == 'long_string_text'
@@ -470,7 +475,7 @@ def gates(m, tier):
               'directive_whitespace_variant', 'missing_target', 'png_raw', 'png_compressed', 'includes_0', 'same_target_twice', 'cart_inside_carts_folder', 'name_with_embedded_extension', 'include_inside_block_comment',
               'cart_opened_through_symlinked_directory', 'lua_target_with_high_bytes', 'tab_selector_two_digits', 'cart_opened_as_bare_name_in_cwd',
               'cart_opened_as_dot_slash_in_cwd', 'cart_opened_as_relative_from_parent', 'line_mentioning_include', 'mentioned_file_exists', 'blank_own_lines', 'selector_after_lua_name', 'included_p8_no_lua_section', 'included_p8_empty_lua_section', 'included_p8_in_variant_shape', 'missing_target_with_sibling_of_other_format',
-              'name_not_in_normal_form', 'name_with_pattern_characters', 'name_beginning_with_dots', 'cart_includes_its_own_tab', 'lua_target_that_is_a_fragment:function_opened', 'lua_target_that_is_a_fragment:long_string_text'):
+              'name_not_in_normal_form', 'name_with_pattern_characters', 'name_beginning_with_dots', 'tab_selector_with_leading_zeros', 'cart_includes_its_own_tab', 'lua_target_that_is_a_fragment:function_opened', 'lua_target_that_is_a_fragment:long_string_text'):
         if f.get(k, 0) < 5:
             missed.append('%s seen %d times' % (k, f.get(k, 0)))
     if mon.get('splices_compared', 0) < 200:
